@@ -1,4 +1,4 @@
-CONSTANTS G = {1, 2}  MaxCalls = 3  WriteThrough = FALSE
+CONSTANTS G = {1, 2}  MaxCalls = 3  WriteThrough = FALSE  D = {1}  Offsets = "append"
 SPECIFICATION Spec
 INVARIANTS AckedSurvive
 CHECK_DEADLOCK FALSE
